@@ -38,7 +38,7 @@ Proof.
   unfold disk_put. destruct (exec (fc_disk c) d (RPut CAS hash sz st rnd)) as [d1 [r|]] eqn:E.
   - destruct r; try (intros H; inversion H; fail).
     intros H; inversion H; subst.
-    destruct (exec_put_ok_sound _ _ _ _ _ _ _ _ E) as [[G [U1 [U2 U3]]]|[[_ [S1 S2]] S3]]; [destruct G as [G1 G2]|].
+    destruct (exec_put_ok_sound _ _ _ _ _ _ _ _ E) as [[G [U1 [U2 U3]]]|[[_ [S1 S2]] [S3 S4]]]; [destruct G as [G1 G2]|].
     + left. repeat split; try assumption; try lia. apply U3. reflexivity.
     + right. repeat split; assumption.
   - intros H; inversion H.
@@ -49,7 +49,7 @@ Lemma disk_put_ok_any c d k hash sz st rnd d' :
 Proof.
   unfold disk_put. destruct (exec (fc_disk c) d (RPut k hash sz st rnd)) as [d1 [r|]] eqn:E.
   - destruct r; try (intros H; inversion H; fail).
-    intros _. destruct (exec_put_ok_sound _ _ _ _ _ _ _ _ E) as [[G _]|[[_ [S1 S2]] S3]]; [destruct G as [G1 G2]|].
+    intros _. destruct (exec_put_ok_sound _ _ _ _ _ _ _ _ E) as [[G _]|[[_ [S1 S2]] [S3 S4]]]; [destruct G as [G1 G2]|].
     + left. lia.
     + right. repeat split; assumption.
   - intros H; inversion H.
